@@ -291,6 +291,11 @@ class Stream:
         """A hashable key when the case is non-trivial, else None."""
         return impl_out
 
+    def agree(self, case, impl_out: str, model_out: str) -> bool:
+        """Do implementation and model agree on this case?  (Equality, unless the model answer is a
+        one-sided guarantee such as 'the theorem's hypotheses hold, so the result must be X'.)"""
+        return impl_out == model_out
+
     def classify(self, case, failure: str) -> Optional[str]:
         """Key of a known-finding shape this failing case belongs to."""
         return None
@@ -344,7 +349,7 @@ def run_stream(stream: Stream, tier: str, seed: int, use_model: bool, extra_case
                 if n == 0:
                     continue
                 mo = stream.model_out(c, outs[a : a + n])
-                if mo != io:
+                if not stream.agree(c, io, mo):
                     res.disagreements.append((c, io, mo))
     for c, io in zip(cases, impl_outs):
         why = stream.oracle(c, io)
